@@ -70,7 +70,18 @@ func (b *pb) pickU() int {
 }
 
 func (b *pb) set(u int, w int) {
-	b.add(Op{K: "set", P: b.party[u], H: u, W: w, A: QS(b.g.SetterValue(w))})
+	switch k := b.r.Intn(24); {
+	case k == 0 || k == 1:
+		// state-dependent value: the setter is handed the component's own current getter value
+		// (a "nothing changes" call must still follow the standard's steps)
+		b.add(Op{K: "set", P: b.party[u], H: u, W: w, V: "own"})
+	case k == 2 && len(b.urls) > 1:
+		b.add(Op{K: "set", P: b.party[u], H: u, W: w, V: "peer", S: b.urls[b.r.Intn(len(b.urls))]})
+	case k == 3:
+		b.add(Op{K: "set", P: b.party[u], H: u, W: w, V: "own", A: QS(b.g.pick([]string{" ", "/", ":", "x", "?", "#", "\t", ".", "%41"}))})
+	default:
+		b.add(Op{K: "set", P: b.party[u], H: u, W: w, A: QS(b.g.SetterValue(w))})
+	}
 	if w == 7 {
 		for _, s := range b.sps {
 			if b.spOf[s] == u {
